@@ -76,6 +76,32 @@ Definition run_hist (dbg : bool) (t : ty) (kf : kind * bool) (a b : Z) (h : list
   let '(k, f) := kf in
   show_outs (run_res (it_next dbg t k f) (it_next_back dbg t k f) h (a, b)).
 
+(** the state a history leaves ([None]: it panicked) *)
+Fixpoint state_after_res {St} (nx nb : St -> res (option (Z * St))) (h : list end_) (st : St) : option St :=
+  match h with
+  | [] => Some st
+  | e :: h' =>
+      match (match e with Front => nx st | Back => nb st end) with
+      | Ok None => state_after_res nx nb h' st
+      | Ok (Some (_, st')) => state_after_res nx nb h' st'
+      | _ => None
+      end
+  end.
+(** [copy().rev()] at that state: [next] and [next_back] exchanged; its first 4 items *)
+Definition revat_line (dbg : bool) (t : ty) (kf : kind * bool) (a b : Z) (h : list end_) : string :=
+  let '(k, f) := kf in
+  let outs := run_res (it_next dbg t k f) (it_next_back dbg t k f) h (a, b) in
+  show_outs outs ++ "|" ++
+  match state_after_res (it_next dbg t k f) (it_next_back dbg t k f) h (a, b) with
+  | None => ""
+  | Some st =>
+      let '(l, r) := collect_res (it_next dbg t k (negb f)) 4 st in
+      match r with
+      | Ok _ => show_items show_Z l
+      | _ => "PANIC"
+      end
+  end.
+
 Definition is_dbg (v : val) : bool := String.eqb (as_atom v) "D".
 
 Definition pats : list string := ["F"; "B"; "FB"; "BF"; "FFB"; "BBF"].
@@ -103,6 +129,17 @@ Definition c09_run (fam : string) (args : list val) : option string :=
         | Some t', Some k' =>
             let e := ends_of (as_atom p) in
             Some (run_hist (is_dbg prof) t' k' (as_Z a) (as_Z b) (cycle (Z.to_nat (as_Z n)) e e))
+        | _, _ => None
+        end
+    | _ => None
+    end
+  else if String.eqb fam "c09.revat" then
+    match args with
+    | [t; k; a; b; p; n; prof] =>
+        match ty_of (as_atom t), kind_of (as_atom k) with
+        | Some t', Some k' =>
+            let e := ends_of (as_atom p) in
+            Some (revat_line (is_dbg prof) t' k' (as_Z a) (as_Z b) (cycle (Z.to_nat (as_Z n)) e e))
         | _, _ => None
         end
     | _ => None
